@@ -349,17 +349,21 @@ class DictReader:
 
             try:
                 sec = odmlfmt.Section.create(**sec_attrs)
-
-                for prop in sec_props:
-                    sec.append(prop)
-
-                for child_sec in children_secs:
-                    sec.append(child_sec)
-
-                odml_sections.append(sec)
             except Exception as exc:
                 msg = "Section not created (%s)\n  %s" % (sec_attrs, str(exc))
                 self.error(msg)
+                continue
+
+            # A child can be refused, e.g. when a sibling with the same name
+            # has already been added; only that child is left out.
+            for child in sec_props + children_secs:
+                try:
+                    sec.append(child)
+                except Exception as exc:
+                    msg = "Section not created (%s)\n  %s" % (sec_attrs, str(exc))
+                    self.error(msg)
+
+            odml_sections.append(sec)
 
         return odml_sections
 
